@@ -7,6 +7,8 @@ from .. import paths
 from ..core import FUNC, call_attr, calls_in, const, dotted, is_const, kwarg, norm, slice_parts, text, walk_local
 
 EXPLANATION = [
+    'C17.one-parser: no method of sdp.DataElementParser creates another DataElementParser: nesting is parsed by the one parser whose depth counter the guard tests.',
+    "C17.endpoint-lists: in bumble.avdtp the endpoints' capabilities / configuration lists are only rebound as a whole, never changed in place (slice store, extend, clear, +=): the two may be one list object.",
     'C17.avdtp-restart: in the AVDTP MessageAssembler the branch that abandons an unfinished message on a new START / SINGLE packet does not return: the new packet is processed, so the request after a malformed one is answered.',
     "C17.sdp-watchdog: (shared with C19.sdp-watchdog) each continuation loop of the SDP client runs under `watchdog > 0` and ends with an unconditional `watchdog -= 1`: a server that always answers 'more' is given up on after SDP_CONTINUATION_WATCHDOG rounds.",
     "C17.peer-mtu-floor: the MTU taken from a peer's Configure Request is bounded below (max(value, L2CAP minimum)) before it is stored, so AVDTP's and RFCOMM's fragment sizes derived from it stay positive.",
@@ -1138,7 +1140,56 @@ def avdtp_restart(ctx, rule='C17.avdtp-restart'):
                 'the packet that interrupts an unfinished message is dropped together with it: after a truncated command or a dangling START (both leave the assembler mid-message) the next well-formed command is silently discarded', p.loc(br))
 
 
+def endpoint_lists(ctx):
+    """An endpoint's capability and configuration lists are replaced, never changed in place: LocalSource hands the same
+    list object to both, so an in-place update of the configuration (slice assignment, extend, clear ...) with what a peer
+    sent rewrites the capabilities the endpoint advertises."""
+    R, p = ctx.r, ctx.p
+    rule = 'C17.endpoint-lists'
+    m = p.modules.get('bumble.avdtp')
+    if m is None:
+        R.bad(rule, 'bumble.avdtp', 'anchor missing')
+        return
+    NAMES = ('self.configuration', 'self.capabilities')
+    MUT = ('append', 'extend', 'insert', 'remove', 'pop', 'clear', 'sort', 'reverse')
+    n = 0
+    for x in ast.walk(m.tree):
+        if isinstance(x, ast.Assign) and dotted(x.targets[0]) in NAMES:
+            n += 1
+        bad = None
+        if isinstance(x, (ast.Assign, ast.AugAssign, ast.Delete)):
+            for t in (x.targets if not isinstance(x, ast.AugAssign) else [x.target]):
+                if isinstance(t, ast.Subscript) and dotted(t.value) in NAMES:
+                    bad = t
+                if isinstance(x, ast.AugAssign) and dotted(t) in NAMES:
+                    bad = t
+        if isinstance(x, ast.Call) and call_attr(x) in MUT and dotted(x.func.value) in NAMES:
+            bad = x
+        if bad is not None:
+            R.bad(rule, f'{p.qual_of(x)} | {norm(x)[:50]}', f'`{norm(x)[:70]}` changes the list in place: the same list object is the endpoint\'s capabilities (LocalSource passes one list for both), so what a peer puts into SET_CONFIGURATION becomes what the endpoint advertises from then on', f'{m.rel}:{x.lineno}')
+    R.check(n >= 4, rule, 'bumble.avdtp | capability / configuration lists', f'{n} whole-list assignments, no in-place change', f'only {n} assignments found')
+
+
+def one_parser(ctx):
+    """The SDP nesting guard is a counter on the parser object: nested elements are parsed by the same parser (recursion
+    through self), so no method of DataElementParser creates another DataElementParser (whose depth would restart at 0)."""
+    R, p = ctx.r, ctx.p
+    rule = 'C17.one-parser'
+    ci = p.cls('bumble.sdp.DataElementParser')
+    if ci is None:
+        R.bad(rule, 'bumble.sdp.DataElementParser', 'anchor missing')
+        return
+    n = 0
+    for name, fn in sorted(ci.methods.items()):
+        n += 1
+        for c in [x for x in calls_in(fn) if call_attr(x) == 'DataElementParser' or (dotted(x.func) or '') in ('type(self)', 'self.__class__', 'cls')]:
+            R.bad(rule, f'bumble.sdp.DataElementParser.{name} | {norm(c)[:40]}', f'{name} parses a nested element with a new parser (`{norm(c)[:60]}`): its nesting counter starts at 0 again, so the depth limit never accumulates across that kind of nesting and a small request recurses to the interpreter\'s limit', p.loc(c))
+    R.check(n >= 3, rule, 'bumble.sdp.DataElementParser | methods', f'{n} methods, none creates another parser', f'only {n} methods found')
+
+
 RULES = [
+    ('C17.one-parser', one_parser),
+    ('C17.endpoint-lists', endpoint_lists),
     ('C17.avdtp-restart', avdtp_restart),
     ('C17.sdp-watchdog', sdp_watchdog_rule),
     ('C17.peer-mtu-floor', peer_mtu_floor),
